@@ -76,7 +76,9 @@ def _entry(ck: Checker) -> None:
     # each key is restored into the attribute of the same name, through the matching converter
     conv = {"meta": ("self.meta.to_dict()", "Meta.from_dict"), "hash_info": ("self.hash_info.to_dict()", "HashInfo.from_dict"), "loaded": ("self.loaded", None)}
     for k, (wv, rv) in conv.items():
-        okw = k in w and norm(w[k].value) == wv
+        from ..prov import expand_txt as _et
+
+        okw = k in w and (norm(w[k].value) == wv or set(_et(prog, td, w[k].value)) == {wv})
         okr = False
         for n in gfd.nodes.values():
             a_ = n.ast
